@@ -120,7 +120,8 @@ impl RefServer {
         self.nonce_ctr += 1;
         let rest = format!("n{:04}q", self.nonce_ctr);
         let offered = algs_list(&self.ses_algs).is_some();
-        if self.ses_cookie {
+        // a server that offers algorithms or asks for anonymity must say so in the nonce cookie
+        if self.ses_cookie || offered || self.ses_anon {
             nonce_cookie(offered, self.ses_anon, &rest)
         } else {
             format!("plain-{}", rest)
@@ -288,6 +289,12 @@ impl RefServer {
                             b.push_attr(A_ERROR_CODE, &error_code_value(438, "Stale Nonce"));
                         }
                         self.push_realm_nonce(&mut b, spec, &nonce);
+                        // RFC 8489 9.2.4: a 438 carries NONCE, REALM and PASSWORD-ALGORITHMS
+                        if let Some(list) = algs_list(&self.ses_algs) {
+                            if !kv_has(spec, "noalgs") {
+                                b.push_attr(A_PASSWORD_ALGORITHMS, &password_algorithms_value(&list));
+                            }
+                        }
                         what.push_str("438");
                         if kv_get(spec, "integ").is_some() {
                             key = self.lt_key_for(req, true);
